@@ -21,7 +21,7 @@ import pandas as pd
 import common
 
 MANIFEST = dict(
-    text='Theorems (props/C07.v, 21, all closed under the global context) about a hand-written Gallina model over Q of '
+    text='Theorems (props/C07.v, 22, all closed under the global context) about a hand-written Gallina model over Q of '
          'notch_approximation_law.Binned, generic in the tabulated column of the wrapped law: the prefix count meets numpy\'s '
          'searchsorted(side=left) contract; lookup_is_upper_edge (value = sgn L * v(k/n*Lmax), k = max 1 ceil(|L| n/Lmax)), the selected '
          'edge is the least edge >= |L|, edge_hits_own_class / above_edge_hits_next_class, zero_load_is_zero, out_of_range_errors + '
@@ -496,6 +496,12 @@ def run_coq(items):
         t += 'Definition bad := map fst (filter (fun p => negb (snd p)) cases).\nEval vm_compute in (length cases, bad).\n'
         files.append(('C07_' + name, t))
     outs = common.coq_scratch_many(files, timeout=900)
+    for attempt in range(2):     # a coqc that was killed (no 'Error' of its own, no result line) is an infrastructure failure: retry
+        redo = [i for i, (ok, out) in enumerate(outs) if not ok and 'Error' not in out]
+        if not redo:
+            break
+        for i in redo:
+            outs[i] = common.coq_scratch(files[i][0], files[i][1], 900)
     res = {}
     for (name, _, terms), (ok, out) in zip(items, outs):
         m = re.search(r'=\s*\((\d+)%?n?a?t?,\s*\[(.*?)\]\)', out.replace('\n', ' '), flags=re.S)
@@ -631,7 +637,7 @@ def build_plan(res):
     quick = res.tier == 'quick'
     plan = Plan(res)
     # (Ia) exact grids, injected law, whole construction
-    ns = [1, 2, 3, 4, 5, 7, 8, 10, 16, 25, 64, 100]
+    ns = [1, 2, 3, 4, 5, 8, 10, 16, 100] if quick else [1, 2, 3, 4, 5, 7, 8, 10, 16, 25, 64, 100]
     reps = 1 if quick else 5
     for rep in range(reps):
         for n in ns:
@@ -640,12 +646,14 @@ def build_plan(res):
                 continue
             plan_single(plan, rng, dict(law=rand_inj(rng), Lmax=Lmax, bins=n), True, 12 if quick else 60)
     # (II) float grids, real laws + injected law, class selection on the implementation's own float tables
-    fl = [(EN1, 359.3, 100), (EN2, 1266.25 * 0.8, 100), (SB1, 359.3, 100), (EN1, 250.0, 7), (EN3, 1000.0 / 3, 100),
+    big = 25 if quick else 100          # quick keeps three 100-class tables (default bin count), the rest smaller
+    fl = [(EN1, 359.3, 100), (EN2, 1266.25 * 0.8, big), (SB1, 359.3, 100), (EN1, 250.0, 7), (EN3, 1000.0 / 3, big + 5),
           (EN1, 0.1, 10), (SB1, 400.0, 13), (rand_inj(rng), 359.3, 100), (rand_inj(rng), 1.4 * 260.0, 3), (rand_inj(rng), 77.7, 1)]
-    nrand = 4 if quick else 60
+    nrand = 3 if quick else 60
     for _ in range(nrand):
         law = rng.choice([EN1, EN2, EN3, SB1, rand_inj(rng)])
-        fl.append((law, rng.choice([rng.uniform(1.0, 2000.0), round(rng.uniform(1.0, 900.0), 1)]), rng.choice([rng.randint(2, 150), 100, 100])))
+        n = rng.randint(2, 40) if quick else rng.choice([rng.randint(2, 150), 100, 100])
+        fl.append((law, rng.choice([rng.uniform(1.0, 2000.0), round(rng.uniform(1.0, 900.0), 1)]), n))
     for law, Lmax, n in fl:
         plan_single(plan, rng, dict(law=law, Lmax=Lmax, bins=n), False, 16 if quick else 80)
     # per-point tables: exact (Ia) and float (II)
